@@ -7,10 +7,11 @@
 EXTENDS Chronicle_MC, Json
 VARIABLE h
 gvars == <<vars, h>>
-Table == [cal |-> Cal, tod |-> Tod, at |-> EntAt, run |-> EntRun, ok |-> EntOk]
+Table == [cal |-> Cal, tod |-> Tod, at |-> EntAt, run |-> EntRun, st |-> EntSt, zone |-> ZoneOff]
 GenInit == /\ Init /\ h = <<>>
            /\ PrintT(<<"TABLE", ToJson(Table)>>)
-           /\ \A x \in Queries : PrintT(<<"QUERY", ToJson(<<x.after, x.before, x.limit, IF x.ok THEN 1 ELSE 0, x.now>>)>>)
+           /\ \A x \in Queries, z \in DOMAIN ZoneOff :   \* every query, its bounds written in every zone
+                  PrintT(<<"QUERY", ToJson(<<x.after, x.before, x.limit, IF x.ok THEN 1 ELSE 0, x.now, z>>)>>)
 GenNext == \E e \in Cand : DoAppend(e) /\ h' = Append(h, e)
 GenSpec == GenInit /\ [][GenNext]_gvars
 View == vars
